@@ -215,9 +215,10 @@ func (s *SoftwrapScanner) Scan(ctx vxfw.DrawContext) bool {
 			s.rest = []byte{}
 			// Append characters to token until we reach the end
 			for _, char := range wordChars {
-				if w >= s.width {
+				if w >= s.width || (len(s.token) > 0 && w+uint16(char.Width) > s.width) {
 					// Append the rest to rest
 					s.rest = append(s.rest, []byte(char.Grapheme)...)
+					w = s.width
 					continue
 				}
 				s.token = append(s.token, []byte(char.Grapheme)...)
